@@ -350,11 +350,15 @@ MergeScan ==
   /\ UNCHANGED <<dir, dhint, durable, lock, st, active, index, total, reclaim, batch, adopt, pc, cur, ghost, ctrs>>
 
 \* the marker is written last; it names the first file that did not take part and the number of rewritten files
+\* (fix) the active file is flushed first: a record the scan dropped because a newer one existed must not
+\* outlive that newer one's loss in a power failure (Bug "MergeMarksUnflushed": no flush)
 MergeMark ==
   /\ st = "open" /\ merge.on /\ merge.ph = "mark"
+  /\ cur = Idle /\ pc = <<>> /\ batch = NoBatch              \* the flush takes the database lock
   /\ mdir' = [mdir EXCEPT !.marker = [nm |-> merge.nm, cnt |-> merge.out + 1]]
+  /\ durable' = IF Has("MergeMarksUnflushed") THEN durable ELSE [durable EXCEPT ![active] = Len(dir[active])]
   /\ merge' = NoMerge
-  /\ UNCHANGED <<dir, dhint, durable, lock, st, active, index, total, reclaim, batch, adopt, pc, cur, ghost, ctrs>>
+  /\ UNCHANGED <<dir, dhint, lock, st, active, index, total, reclaim, batch, adopt, pc, cur, ghost, ctrs>>
 
 (* ---- Close, faults, Open ---------------------------------------------------------------- *)
 Quiescent == st = "open" /\ cur = Idle /\ pc = <<>> /\ batch = NoBatch
@@ -384,7 +388,7 @@ FloorPL == MaxOf({p \in 0..Len(acked) : \A j \in 1..p : DurableMut(acked[j].mid)
 
 \* power failure: additionally every file loses any tail beyond its durable prefix, possibly inside a record
 PowerLoss ==
-  /\ Feat("powerloss") /\ st = "open" /\ nfaults < MaxFaults /\ ~merge.on
+  /\ Feat("powerloss") /\ st = "open" /\ nfaults < MaxFaults /\ ~merge.on    \* (the merge directory is assumed durable once marked)
   /\ Volatile
   /\ floor' = FloorPL /\ inflight' = InFlightW
   /\ \E cut \in [Fids -> 0..MaxLen], torn \in (IF Feat("torn") THEN BOOLEAN ELSE {FALSE}) :
